@@ -23,7 +23,7 @@ BUDGET = {
     "quick": {"cases": 8000, "seconds": 90, "shards": 8},
     "thorough": {"cases": 120000, "seconds": 900, "shards": 16},
 }
-REQUIRED_OBS = ["sup_zero_row_cases", "sup_resub_checked", "sup_predict_train_checked", "knn_resub_checked", "knn_tied_or_duplicate_cases"]
+REQUIRED_OBS = ["deep_path_case", "sup_zero_row_cases", "sup_resub_checked", "sup_predict_train_checked", "knn_resub_checked", "knn_tied_or_duplicate_cases"]
 MIN_NONTRIVIAL = 100
 ZERO_SELF = [m for m in gen.SYMMETRIC_DISSIMILARITIES]
 
@@ -148,3 +148,23 @@ def shrink(case):
             if len(set(Y2)) < 2 or sorted(set(Y2)) != list(range(len(set(Y2)))) or case["max_k"] > n - 2:
                 continue
             yield {**case, "X": case["X"][:i] + case["X"][i + 1:], "Y": Y2, "YV": [min(v, max(Y2)) for v in case["YV"]]}
+
+
+def extra(tier, seed, shard=0, nshards=1):
+    """One designed tie-free set whose optimum path is ~1100 samples deep (one class on a line with random, decreasing gaps): every
+    training sample must still get its own label back from the forest and from predict(X_train)."""
+    if shard != min(1, nshards - 1):
+        return []
+    rng = np.random.default_rng([seed, 404])
+    N = 1100
+    gaps = 1.0 + np.sort(rng.random(N))[::-1]
+    xs = np.concatenate([[0.0], np.cumsum(gaps)])
+    xs = np.concatenate([xs, xs[-1] + np.array([0.83, 1.71])])
+    case = {"part": "sup", "model": "supervised", "metric": "euclidean", "gclass": "deep-chain", "X": [[float(v)] for v in xs],
+            "Y": [0] * (N - 2) + [1] * 5, "Q": [[float(xs[0] - 0.4)]], "pre": None}
+    r = check(case)
+    if not r.violations and not r.rejected:
+        r.see("deep_path_case")
+        return [({"deep_chain": {"n": len(xs), "depth": N - 3}}, r)]
+    return [(case, r)]
+
